@@ -1013,7 +1013,8 @@ func (fx *FuncCtx) loadHeap(st *State, prefix string, ref Term, t types.Type) Va
 	}
 	if s == SInt {
 		if _, ok := intInfo(t); !ok {
-			st.assume(Ge(v, IntLit(0))) // references
+			fx.refFact(st, v) // references
+			fx.heapRefAxiom(prefix, "")
 		}
 	}
 	return fx.wrapElem(v, t)
